@@ -343,7 +343,6 @@ def _bracket(inp, c0row, ks, s_exp, activity=None):
         except Exception as ex:
             return {"ev": "bracket", "raised": True, "dl": dl, "x": ec.enc_vec([0.0] * len(c0row), s_exp)[0]}, \
                 "%s: %s" % (type(ex).__name__, str(ex)[:100])
-    enc, _ = ec.enc_vec(list(x2), s_exp)
     return {"ev": "bracket", "raised": False, "dl": dl, "x": ec.enc_vec(_as_vector(x2, len(c0row)), s_exp)[0]}, \
         [float("%.9g" % v) for v in _as_vector(x2, len(c0row))]
 
@@ -387,7 +386,7 @@ def _judge(ctx, items, cfg="EqSolveTrace.cfg"):
 
 def _plan(ctx, cases):
     """stratified choice of problems and the chains each is run under"""
-    n = 140 if ctx.quick else 1800
+    n = 140 if ctx.quick else 1500
     # stratify by class and, for salts, by the saturation the spec decided
     wrapped = [{"cls": c["cls"] + "-" + c["exp"].get("saturation", "none"), "case": c} for c in cases]
     sel = [w["case"] for w in ctx.pick(wrapped, n)]
